@@ -227,7 +227,7 @@ func main() {
 		}
 		ok := true
 		for _, id := range ids {
-			if !selftest(props[id], 48) {
+			if !selftest(props[id], selftestN()) {
 				ok = false
 			}
 		}
@@ -675,4 +675,11 @@ func selftest(p *propCfg, n int) bool {
 	}
 	fmt.Printf("selftest %s: %d run indices x %d configurations in %d OS processes: deterministic=%v\n", p.ID, n, len(cfgs), procs, ok)
 	return ok
+}
+
+func selftestN() int {
+	if v, err := strconv.Atoi(os.Getenv("VERIF_SELFTEST_N")); err == nil && v > 0 {
+		return v
+	}
+	return 64
 }
